@@ -14,7 +14,7 @@ from dliswriter import DLISFile
 
 THEOREMS = ['Dlis.C13.index_min_max', 'Dlis.C13.spacing_uniform', 'Dlis.C13.spacing_present_only_if_uniform',
             'Dlis.C13.direction_sense', 'Dlis.C13.direction_only_without_spacing', 'Dlis.C13.user_values_unchanged',
-            'Dlis.C13.single_row']
+            'Dlis.C13.single_row', 'Dlis.C13.index_attributes_follow_each_write', 'Dlis.C13.user_index_attributes_survive']
 INT_DT = ['int8', 'int16', 'int32', 'uint8', 'uint16', 'uint32']
 
 
@@ -123,6 +123,114 @@ def frame_attrs(model, data):
         if r['eflr'] and r.get('set_type') == 'FRAME':
             return dict(zip([t['label'] for t in r['template']], r['objects'][0]['attrs']))
     return None
+
+
+def frame_sequences(chk, model, bres, R, n, stream='frame-sequences'):
+    """ONE frame written 2..4 times from other rows each time (data handed to write()), some writes in high-compatibility
+    mode (an unevenly spaced index is refused there, after INDEX-MIN / -MAX were derived), the user assigning some of the
+    index attributes before the first or a later write: the four attributes held after every attempt vs `frameSetup`
+    threaded through `FrameIdx` (Model/FrameIdx.lean); oracle: what the user assigned is never replaced"""
+    from dliswriter import high_compatibility_mode
+    if not bres.ok:
+        return
+    segs = {'up': [1, 2, 4, 8, 16], 'down': [90, 70, 40, 5], 'even': [20, 22, 24, 26], 'even-down': [9, 6, 3], 'flat': [5, 5, 5],
+            'one': [7], 'near': [0, 1000, 2001, 3001], 'mixed': [1, 5, 2, 8]}
+    tmp = tempfile.mkdtemp(prefix='verif_fseq_')
+    reqs, metas = [], []
+    try:
+        for i in range(n):
+            indexed = R.random() < 0.8
+            df = DLISFile(set_identifier='FSEQ', max_record_length=8192)
+            lf = df.add_logical_file()
+            lf.add_origin('O', file_set_number=1, creation_time='2020/01/01 00:00:00')
+            c0 = lf.add_channel('DEPTH')
+            c1 = lf.add_channel('X')
+            fr = lf.add_frame('FR', channels=[c0, c1], **({'index_type': 'BOREHOLE-DEPTH'} if indexed else {}))
+            parts = {'index_min': fr.index_min, 'index_max': fr.index_max, 'spacing': fr.spacing, 'direction': fr.direction}
+            user = {}
+
+            def assign(tok_list):
+                for nm in ('index_min', 'index_max', 'spacing', 'direction'):
+                    if R.random() < 0.12:
+                        v = R.choice(['INCREASING', 'DECREASING']) if nm == 'direction' else R.choice([3, 50, -7, 1000])
+                        parts[nm].value = v
+                        user[nm] = v
+                        tok_list.append({'INCREASING': 'inc', 'DECREASING': 'dec'}.get(v, str(2 * v if nm == 'spacing' else v)))
+                    else:
+                        tok_list.append(None)
+            init = []
+            assign(init)
+            toks = ['fidx'] + [t if t is not None else '~' for t in init]
+            impl, steps = [], []
+            problem = None
+            for k in range(R.choice([2, 2, 3, 4])):
+                a = [] if k else [None] * 4
+                if k:
+                    assign(a)
+                hc = R.random() < 0.25
+                name = R.choice(sorted(segs))
+                xs = segs[name]
+                data = {'DEPTH': np.array(xs, dtype=np.float64), 'X': np.arange(len(xs), dtype=np.float32)}
+
+                def w():
+                    if hc:
+                        with high_compatibility_mode():
+                            df.write(f'{tmp}/s.dlis', data=data, output_chunk_size=2**20)
+                    else:
+                        df.write(f'{tmp}/s.dlis', data=data, output_chunk_size=2**20)
+                st, err = call(w)
+                toks += ['S', '1' if hc else '0', '1' if indexed else '0', ','.join(str(x) for x in xs)] + \
+                        [t if t is not None else '=' for t in a]
+                steps.append({'high_compat': hc, 'rows': name, 'index_values': xs,
+                              'assigned_before': {nm: user[nm] for nm, t in zip(parts, a) if t is not None}})
+
+                def tok(nm):
+                    v = parts[nm].value
+                    if v is None:
+                        return '~'
+                    if nm == 'direction':
+                        return {'INCREASING': 'inc', 'DECREASING': 'dec'}.get(getattr(v, 'value', v), '?' + str(v))
+                    f = Fraction(float(v)) * (2 if nm == 'spacing' else 1)
+                    return str(int(f)) if f.denominator == 1 else '?' + str(f)
+                impl.append(('ok' if st == 'ok' else 'err') + ' ' + ' '.join(tok(nm) for nm in parts))
+                for nm, v in user.items():
+                    held = parts[nm].value
+                    if getattr(held, 'value', held) != v:
+                        problem = f'step {k + 1}: {nm} assigned {v!r} by the user, now {held!r}'
+                if st == 'ok' and problem is None:
+                    # model-free: what the user did not assign describes the rows of THIS write
+                    if indexed:
+                        lo, hi, sp, di = expected_stats([Fraction(x) for x in xs])
+                        if 'spacing' in user:
+                            di = None if sp is not None else di      # (the code looks at the data's spacing, not the user's)
+                    else:
+                        lo, hi, sp, di = 1, len(xs), 1, None
+                    want = {'index_min': lo, 'index_max': hi, 'spacing': sp, 'direction': di}
+                    for nm in parts:
+                        if nm in user:
+                            continue
+                        held = parts[nm].value
+                        held = getattr(held, 'value', held)
+                        w_ = want[nm]
+                        same = (held is None and w_ is None) or (held is not None and w_ is not None and
+                                                                 (held == w_ if nm == 'direction' else Fraction(float(held)) == Fraction(w_)))
+                        if not same:
+                            problem = (f'write {k + 1} (rows {xs}): {nm} is {held!r} after the write, the rows written call for '
+                                       f'{None if w_ is None else (w_ if nm == "direction" else float(w_))!r}')
+                            break
+            case = {'index_type': 'BOREHOLE-DEPTH' if indexed else None, 'assigned_at_creation': dict(zip(parts, init)), 'writes': steps}
+            if problem:
+                chk.fail(f'{stream}:user-value-replaced' if 'by the user' in problem else f'{stream}:not-derived-from-this-write',
+                         case, problem)
+            reqs.append(' '.join(toks))
+            metas.append((case, ';'.join(impl)))
+        for (case, impl), req, rep in zip(metas, reqs, model.ask(reqs)):
+            chk.case(stream, nontrivial_key=hash(req), sample={'request': req[:200], 'impl': impl[:200]})
+            chk.count(f"{stream}:{'refusals' if 'err' in impl else 'all-ok'}")
+            if rep != impl:
+                chk.disagree(stream, dict(case, request=req[:600]), impl, rep)
+    finally:
+        shutil.rmtree(tmp, ignore_errors=True)
 
 
 def run(tier):
@@ -340,6 +448,7 @@ def run(tier):
                     chk.fail('rewrite:stale-derived-values', {**case, 'second_write': 'full range'},
                              f'second write (all rows {lo2}..{hi2}) still carries INDEX-MIN/MAX {a2 and a2["INDEX-MIN"]["vals"]}, '
                              f'{a2 and a2["INDEX-MAX"]["vals"]} derived at the first write')
+        frame_sequences(chk, model, bres, rng('C13', 'frame-sequences'), 120 if tier == 'quick' else 1200)
     finally:
         shutil.rmtree(tmp, ignore_errors=True)
     return finish(chk, bres, THEOREMS,
